@@ -71,6 +71,8 @@ class Ty:
         self.kind, self.signed, self.bits, self.to, self.name, self.const = kind, signed, bits, to, name, const
 
     def coq(self):
+        if self.kind == "bool":
+            return "bool"
         if self.kind == "int":
             return "Z" if self.signed else "N"
         if self.kind == "ptr":
@@ -426,7 +428,13 @@ class Fn:
         return t
 
     def wrap_ok(self, text):
-        return "Ok %s" % text if self.flags["monadic"] else text
+        return "Ok (%s)" % text if self.flags["monadic"] else text
+
+    def returning(self, text):
+        """the function returns the result tuple `text` (from inside a loop: through Ret)"""
+        if self.loops:
+            return "Ok (Ret (%s))" % text
+        return self.wrap_ok(text)
 
     def fault(self, what):
         self.need("monadic")
@@ -772,3 +780,644 @@ class Fn:
         if e.ty.kind == "ptr":
             return E("negb (ptr_is_null %s)" % emb(e, "?"), "*", BOOL)
         bad(n0, "condition of type %s" % e.ty.kind)
+
+    # ---- calls
+    def call(self, n):
+        name, args = callee_name(n), kids(n)[1:]
+        if name == "memset":
+            self.need("uses_mem")
+            self.need("writes_mem")
+            self.need("monadic")
+            p, c, sz = (self.ex(a) for a in args)
+            if not self.is_byte_ptr(p.ty):
+                bad(n, "memset of something that is not the byte array")
+            self.pre[-1].append(("bind", "memset8 mem' %s %s %s" % (emb(p, "?"), emb(c, "Z"), emb(sz, "N")), "mem'"))
+            return p
+        fi = self.mod.fn(name, n)
+        for f in ("fuel", "uses_mem", "writes_mem"):
+            if fi.flags[f]:
+                self.need(f)
+        if len(args) != len(fi.params):
+            bad(n, "argument count")
+        argt = (["fuel'"] if fi.flags["fuel"] else []) + (["mem'"] if fi.flags["uses_mem"] else [])
+        outs = []
+        for pv, a in zip(fi.params, args):
+            if pv.kind == "val":
+                argt.append(emb(self.ex(a), "?"))
+                continue
+            v, a0 = self.var_of(a), strip_parens(a)
+            if pv.kind == "scalarptr" and a0.get("kind") == "UnaryOperator" and a0["opcode"] == "&":
+                v = self.var_of(kids(a0)[0])
+                ok = v and v.kind == "val" and v.ty.kind == "int" and \
+                    (v.ty.signed, v.ty.bits) == (pv.ty.to.signed, pv.ty.to.bits)
+            elif pv.kind == "scalarptr":
+                ok = v and v.kind == "scalarptr"
+            elif pv.kind == "structptr":
+                ok = v and v.kind == "structptr" and v.ty.to.name == pv.ty.to.name
+            else:
+                ok = v and v.kind in ("structptr", "cstruct") and v.ty.to.name == pv.ty.to.name
+                if not ok:
+                    g = self.global_struct(a)
+                    if g:
+                        argt.append(g)
+                        continue
+            if not ok:
+                bad(a, "argument for pointer parameter %s of %s" % (pv.name, name))
+            argt.append(v.name)
+            if pv.kind != "cstruct":
+                outs.append(v.name)
+        if len(set(outs)) != len(outs):
+            bad(n, "the same object passed for two pointer parameters")
+        if (outs or fi.flags["writes_mem"]) and n is not self.top_call:
+            bad(n, "call with side effects that is not a whole statement / initialiser / condition")
+        text = " ".join([fi.name] + argt)
+        pat, rt = [], None
+        if fi.ret.kind != "void":
+            self.ntmp += 1
+            rt = "t'%d" % self.ntmp
+            pat.append(rt)
+        pat += outs + (["mem'"] if fi.flags["writes_mem"] else [])
+        if fi.flags["monadic"]:
+            self.need("monadic")
+            self.pre[-1].append(("bind", text, pat_text(pat)))
+        elif pat == [rt]:
+            return E(text, "*", fi.ret)
+        elif pat:
+            self.pre[-1].append(("let", text, pat_text(pat)))
+        return E(rt, "*", fi.ret, True) if rt else None
+
+    def top(self, n):
+        """mark n (below casts / parens) as the one place where a call with side effects may be"""
+        while n.get("kind") in ("ParenExpr", "ImplicitCastExpr", "CStyleCastExpr", "ConstantExpr"):
+            n = kids(n)[0]
+        self.top_call = n
+
+    # ---- which variables a statement may change
+    def mods(self, n, acc=None):
+        acc = set() if acc is None else acc
+        for x in walk(n):
+            k = x.get("kind")
+            if (k == "BinaryOperator" and x["opcode"] in ASSIGN_OPS) or k == "CompoundAssignOperator" or \
+                    (k == "UnaryOperator" and x["opcode"] in ("++", "--")):
+                acc.add(self.lvalue_root(kids(x)[0]))
+            elif k == "CallExpr":
+                name = callee_name(x)
+                if name == "memset":
+                    acc.add("mem'")
+                elif name not in LOG_FUNCS:
+                    fi = self.mod.fn(name, x)
+                    if fi.flags["writes_mem"]:
+                        acc.add("mem'")
+                    for pv, a in zip(fi.params, kids(x)[1:]):
+                        if pv.kind in ("structptr", "scalarptr"):
+                            a0 = strip_parens(a)
+                            if a0.get("kind") == "UnaryOperator" and a0["opcode"] == "&":
+                                a0 = kids(a0)[0]
+                            v = self.var_of(a0)
+                            if v:
+                                acc.add(v.name)
+        return acc
+
+    def lvalue_root(self, n):
+        n = strip_parens(n)
+        k = n.get("kind")
+        if k == "DeclRefExpr":
+            return n["referencedDecl"].get("name")
+        if k == "MemberExpr":
+            v = self.var_of(kids(n)[0])
+            if v and v.kind == "structptr":
+                return v.name
+        if k == "UnaryOperator" and n["opcode"] == "*":
+            v = self.var_of(kids(n)[0])
+            if v and v.kind == "scalarptr":
+                return v.name
+            return "mem'"
+        if k == "ArraySubscriptExpr":
+            return "mem'"
+        bad(n, "assignment target")
+
+    def refs(self, n):
+        out = set()
+        for x in walk(n):
+            if x.get("kind") == "DeclRefExpr" and x["referencedDecl"]["kind"] in ("ParmVarDecl", "VarDecl"):
+                out.add(x["referencedDecl"].get("name"))
+        return out
+
+    # ---- statements: st(s, k) = Gallina text of "s, then k()" ; k is called at most once
+    def seq(self, lst, i, k):
+        if i == len(lst):
+            return k()
+        return self.st(lst[i], lambda: self.seq(lst, i + 1, k))
+
+    def st(self, s, k):
+        kind = s.get("kind")
+        if is_logging(s):
+            self.dropped.append(log_text(s))
+            return k()
+        m = getattr(self, "st_" + kind, None)
+        if m is not None:
+            return m(s, k)
+        if kind in ("BinaryOperator", "CompoundAssignOperator", "UnaryOperator", "CallExpr", "ParenExpr"):
+            return self.st_expr(s, k)
+        bad(s, "unsupported statement")
+
+    def st_NullStmt(self, s, k):
+        return k()
+
+    def st_CompoundStmt(self, s, k):
+        saved = dict(self.env)
+
+        def k2():
+            self.env = dict(saved)
+            return k()
+        return self.seq(kids(s), 0, k2)
+
+    def st_DeclStmt(self, s, k):
+        text = []
+        for d in kids(s):
+            if d.get("kind") != "VarDecl":
+                bad(d, "declaration")
+            ty, name = node_type(d), self.ident(d["name"], d)
+            if name in self.env:
+                bad(d, "declaration of %s hides another variable" % name)
+            if d.get("storageClass"):
+                bad(d, "static / extern local")
+            if ty.kind == "int" or self.is_byte_ptr(ty):
+                v = Var(name, "val", ty)
+            elif ty.kind == "ptr" and ty.to.kind == "struct" and ty.to.const:
+                self.mod.need_record(ty.to.name)
+                v = Var(name, "cstruct", ty)
+            else:
+                bad(d, "local variable of type %s" % d["type"]["qualType"])
+            init = [c for c in kids(d) if "Comment" not in c.get("kind", "")]
+            if init:
+                self.open_pre()
+                self.top(init[0])
+                e = self.ex(init[0])
+                self.env[name] = v
+                text.append((self.pre.pop(), "let %s := %s in" % (name, emb(e, "N", False))))
+            else:
+                self.env[name] = v             # uninitialised: no binding until it is assigned
+        body = k()
+        for pre, line in reversed(text):
+            self.pre.append(pre)
+            body = self.close_pre(line + "\n" + body)
+        return body
+
+    def assign(self, lhs, e, k):
+        """lhs = e (e already of the type of lhs), then k()"""
+        lhs = strip_parens(lhs)
+        kind = lhs.get("kind")
+        if kind == "DeclRefExpr":
+            v = self.env.get(lhs["referencedDecl"].get("name"))
+            if v is None or v.kind not in ("val", "cstruct"):
+                bad(lhs, "assignment to %s" % lhs["referencedDecl"].get("name"))
+            return "let %s := %s in\n%s" % (v.name, emb(e, "N", False), k())
+        if kind == "MemberExpr":
+            v = self.var_of(kids(lhs)[0])
+            if v and v.kind == "structptr" and lhs.get("isArrow"):
+                setter = self.mod.setter(v.ty.to.name, lhs["name"], lhs)
+                return "let %s := %s %s %s in\n%s" % (v.name, setter, v.name, emb(e, "?"), k())
+        if kind == "UnaryOperator" and lhs["opcode"] == "*":
+            v = self.var_of(kids(lhs)[0])
+            if v and v.kind == "scalarptr":
+                return "let %s := %s in\n%s" % (v.name, emb(e, "N", False), k())
+            return self.store(self.ex(kids(lhs)[0]), lit(0, PRIMTY["unsigned int"]), e, lhs, k)
+        if kind == "ArraySubscriptExpr":
+            base, idx = kids(lhs)
+            return self.store(self.ex(base), self.ex(idx), e, lhs, k)
+        bad(lhs, "assignment target")
+
+    def store(self, pe, ie, e, n, k):
+        if not self.is_byte_ptr(pe.ty):
+            bad(n, "write through a pointer that is not `uint8_t *`")
+        self.need("uses_mem")
+        self.need("writes_mem")
+        self.need("monadic")
+        i = self.index(ie)
+        return "bind (store8 mem' %s %s %s) (fun mem' =>\n%s)" % (emb(pe, "?"), emb(i, "N"), emb(e, "N"), k())
+
+    def st_expr(self, s, k):
+        s0 = strip_parens(s)
+        kind = s0.get("kind")
+        self.open_pre()
+        self.top(s0)
+        if kind == "BinaryOperator" and s0["opcode"] == "=":
+            lhs, rhs = kids(s0)
+            self.top(rhs)
+            e = self.ex(rhs)
+            text = self.assign(lhs, e, k)
+        elif kind == "CompoundAssignOperator":
+            lhs, rhs = kids(s0)
+            text = self.assign(lhs, self.arith_assign(s0, lhs, rhs, s0["opcode"][:-1]), k)
+        elif kind == "UnaryOperator" and s0["opcode"] in ("++", "--"):
+            lhs = kids(s0)[0]
+            one = {"kind": "IntegerLiteral", "value": "1", "type": s0["type"], "range": s0.get("range", {})}
+            text = self.assign(lhs, self.arith_assign(s0, lhs, one, s0["opcode"][0]), k)
+        elif kind == "CallExpr":
+            self.call(s0)
+            text = k()
+        else:
+            bad(s0, "expression statement")
+        return self.close_pre(text)
+
+    def arith_assign(self, s, lhs, rhs, op):
+        """value of (T)(lhs op rhs) for `lhs op= rhs`, ++lhs, --lhs"""
+        lt = node_type(lhs)
+        ct = parse_type(s["computeResultType"]["qualType"]) if "computeResultType" in s else lt
+        if lt.kind != "int" or ct.kind != "int" or lt.bits < 32 or (ct.signed, ct.bits) != (lt.signed, lt.bits):
+            bad(s, "%s= on type %s" % (op, s["type"]["qualType"]))
+        fake = {"kind": "BinaryOperator", "opcode": op, "type": s["type"], "range": s.get("range", {}),
+                "inner": [{"kind": "ImplicitCastExpr", "castKind": "LValueToRValue", "type": lhs["type"], "inner": [lhs]}, rhs]}
+        return self.ex(fake)
+
+    def st_ReturnStmt(self, s, k):
+        c = kids(s)
+        self.open_pre()
+        val = None
+        if c:
+            self.top(c[0])
+            val = emb(self.ex(c[0]), "N", False)
+        return self.close_pre(self.returning(tuple_text(self.result_parts(val))))
+
+    def st_IfStmt(self, s, k):
+        c = kids(s)
+        cnd, then, els = c[0], c[1], (c[2] if len(c) > 2 else None)
+        self.open_pre()
+        self.top(cnd)
+        cc = self.cond(cnd)
+        kk = self.join(k, [then] + ([els] if els else []), can_fall(then) and can_fall(els))
+        env0 = dict(self.env)
+        tt = self.st(then, kk.use)
+        self.env = dict(env0)
+        te = self.st(els, kk.use) if els else kk.use()
+        self.env = dict(env0)
+        return self.close_pre(kk.wrap("if %s then\n%s\nelse\n%s" % (emb(cc, "N", False), ind(tt), ind(te))))
+
+    def join(self, k, stmts, shared):
+        """continuation k shared by several branches: a let-bound function of the variables
+        the branches may change (only when more than one branch continues)"""
+        fn = self
+
+        class J:
+            def __init__(j):
+                j.head = None
+                if shared:
+                    fn.njoin += 1
+                    name = "k'%d" % fn.njoin
+                    m = set()
+                    for b in stmts:
+                        fn.mods(b, m)
+                    vs = [v for v in fn.env.values() if v.name in m]
+                    env0 = dict(fn.env)
+                    body = k()
+                    fn.env = env0
+                    if vs:
+                        j.head = "let %s := fun %s =>\n%s in" % (
+                            name, " ".join("(%s : %s)" % (v.name, v.coq()) for v in vs), ind(body))
+                    else:
+                        j.head = "let %s :=\n%s in" % (name, ind(body))
+                    j.call = " ".join([name] + [v.name for v in vs])
+
+            def use(j):
+                return j.call if shared else k()
+
+            def wrap(j, text):
+                return j.head + "\n" + text if j.head else text
+        return J()
+
+    def st_SwitchStmt(self, s, k):
+        groups, has_default = switch_groups(s)
+        self.open_pre()
+        self.top(kids(s)[0])
+        e = self.ex(kids(s)[0])
+        if e.ty.kind != "int":
+            bad(s, "switch on a non-integer")
+        sc = e.ty.scope()
+        self.nsw += 1
+        sw = E("sw'%d" % self.nsw, "*", e.ty, True)
+        kk = self.join(k, [g for _, grp in groups for g in grp], True)
+        env0 = dict(self.env)
+        self.breaks.append(kk.use)
+        default, arms = None, []
+        for labels, grp in groups:
+            grp = grp[:-1] if grp and grp[-1].get("kind") == "BreakStmt" else grp
+            self.env = dict(env0)
+            body = self.seq(grp, 0, kk.use)
+            tests = []
+            for l in labels:
+                if l is None:
+                    default = body
+                else:
+                    le = self.ex(l)           # constant expression; anything hoisted is evaluated before the switch
+                    le = self.cast(le, e.ty, l) if (le.ty.signed, le.ty.bits) != (e.ty.signed, e.ty.bits) else le
+                    tests.append("(%s =? %s)" % (emb(sw, sc), emb(le, sc)))
+            if tests:
+                t = " || ".join(tests)
+                arms.append(("(%s)%%%s" % (t, sc) if len(tests) > 1 else "%s%%%s" % (t, sc), body))
+        self.breaks.pop()
+        self.env = dict(env0)
+        text = default if default is not None else kk.use()
+        for t, body in reversed(arms):
+            text = "if %s then\n%s\nelse\n%s" % (t, ind(body), text if text.startswith("if ") else ind(text))
+        return self.close_pre("let %s := %s in\n%s" % (sw.text, emb(e, "N", False), kk.wrap(text)))
+
+    def st_BreakStmt(self, s, k):
+        if not self.breaks:
+            bad(s, "break outside switch / loop")
+        return self.breaks[-1]()
+
+    def st_ContinueStmt(self, s, k):
+        if not self.loops or self.breaks[-1] is not self.loops[-1]["brk"]:
+            bad(s, "continue outside a loop (or inside a switch inside a loop)")
+        return self.loops[-1]["cont"]()
+
+    def st_DoStmt(self, s, k):
+        body, c = kids(s)
+        c = strip_parens(c)
+        if not (c.get("kind") == "IntegerLiteral" and c["value"] == "0"):
+            bad(s, "do-while loop other than do { } while (0)")
+        if contains(body, ("BreakStmt", "ContinueStmt"), LOOPS + ("SwitchStmt",)):
+            bad(s, "break / continue inside do { } while (0)")
+        return self.st(body, k)
+
+    # ---- loops: a Fixpoint on fuel, emitted before the function
+    def st_WhileStmt(self, s, k):
+        cnd, body = [c for c in kids(s) if c]
+        return self.loop(s, cnd, body, None, k)
+
+    def st_ForStmt(self, s, k):
+        init, cvar, cnd, inc, body = kids(s)
+        if cvar:
+            bad(s, "declaration in a for condition")
+        saved = dict(self.env)
+
+        def k2():
+            self.env = dict(saved)
+            return k()
+        go = lambda: self.loop(s, cnd or None, body, inc or None, k2)
+        return self.st(init, go) if init else go()
+
+    def loop(self, s, cnd, body, inc, k):
+        self.need("fuel")
+        self.need("monadic")
+        self.nloop += 1
+        lname = "%s'loop%d" % (self.name, self.nloop)
+        parts = [x for x in (cnd, body, inc) if x]
+        has_ret = any(x.get("kind") == "ReturnStmt" for p in parts for x in walk(p))
+        m, r = set(), set()
+        for p in parts:
+            self.mods(p, m)
+            r |= self.refs(p)
+        if self.flags["uses_mem"]:
+            r.add("mem'")
+        params = [v for v in self.env.values() if v.name in m or v.name in r]
+        carried = [v for v in params if v.name in m]
+        cnames = [v.name for v in carried]
+        ctype = " * ".join(v.coq() for v in carried) or "unit"
+        rtype = "ctl (%s) (%s)" % (ctype, self.result_type()) if has_ret else ctype
+        exit_text = "Ok (Next %s)" % tuple_text(cnames) if has_ret else "Ok %s" % tuple_text(cnames)
+        rec = " ".join([lname, "fuel'"] + [v.name for v in params])
+        env0 = dict(self.env)
+        brk = lambda: exit_text
+        cont = (lambda: self.st(inc, lambda: rec)) if inc else (lambda: rec)
+        self.loops.append({"ret": has_ret, "cont": cont, "brk": brk})
+        self.breaks.append(brk)
+        self.open_pre()
+        if cnd:
+            self.top(cnd)
+            cc = self.cond(cnd)
+            text = "if %s then\n%s\nelse %s" % (emb(cc, "N", False), ind(self.st(body, cont)), exit_text)
+        else:
+            text = self.st(body, cont)
+        text = self.close_pre(text)
+        self.breaks.pop()
+        self.loops.pop()
+        self.env = env0
+        self.aux.append("Fixpoint %s (fuel' : nat) %s {struct fuel'} : res (%s) :=\n  match fuel' with\n"
+                        "  | O => Fault Out_of_fuel\n  | S fuel' =>\n%s\n  end." % (
+                            lname, " ".join("(%s : %s)" % (v.name, v.coq()) for v in params), rtype, ind(text, 4)))
+        call = " ".join([lname, "fuel'"] + [v.name for v in params])
+        if not has_ret:
+            return "bind (%s) (fun %s =>\n%s)" % (call, pat_text(cnames), k())
+        pat = "Next %s" % (tuple_text(cnames) if cnames else "_")
+        return "bind (%s) (fun r' =>\n  match r' with\n  | %s =>\n%s\n  | Ret v' => %s\n  end)" % (
+            call, pat, ind(k(), 4), "Ok (Ret v')" if self.loops else "Ok v'")
+
+    # ---- the whole function
+    def translate(self):
+        body = [c for c in kids(self.decl) if c.get("kind") == "CompoundStmt"][0]
+        while True:
+            self.env = {"mem'": Var("mem'", "mem", None)}
+            for v in self.params:
+                self.env[v.name] = v
+            self.pre, self.aux, self.dropped, self.loops, self.breaks = [], [], [], [], []
+            self.ntmp = self.njoin = self.nsw = self.nloop = 0
+            self.top_call = None
+            if self.ret.kind == "void":
+                end = lambda: self.wrap_ok(tuple_text(self.result_parts(None)))
+            else:
+                end = lambda: self.fault("Fell_off_end")
+            try:
+                text = self.st_CompoundStmt(body, end)
+                break
+            except Retry:
+                continue
+        ps = (["(fuel' : nat)"] if self.flags["fuel"] else []) + (["(mem' : list N)"] if self.flags["uses_mem"] else [])
+        ps += ["(%s : %s)" % (v.name, v.coq()) for v in self.params]
+        rt = self.result_type()
+        rt = "res (%s)" % rt if self.flags["monadic"] else rt
+        src = self.decl["type"]["qualType"]
+        doc = "(* C: %s, type %s *)" % (self.name, src.replace("(*", "( *").replace("*)", "* )"))
+        if self.dropped:
+            doc += "\n(* logging dropped: %s *)" % "; ".join(
+                repr(d.strip()).replace("(*", "( *").replace("*)", "* )") for d in self.dropped)
+        out = self.aux + ["%s\nDefinition %s %s : %s :=\n%s." % (doc, self.name, " ".join(ps), rt, ind(text))]
+        return "\n\n".join(out)
+
+
+# ----------------------------------------------------------------------------- one output file
+class Module:
+    def __init__(self, modname, src, entries):
+        self.modname, self.src, self.entries = modname, src, entries
+        self.tu = TU(os.path.join(REPO, src))
+        self.fns, self.order, self.busy = {}, [], set()
+        self.records, self.globals_used, self.global_text = [], [], {}
+
+    def fn(self, name, node):
+        if name in self.fns:
+            return self.fns[name]
+        if name in self.busy:
+            bad(node, "recursive call of %s" % name)
+        if name not in self.tu.funcs:
+            bad(node, "call of %s (no body in this translation unit, not a supported library function)" % name)
+        self.busy.add(name)
+        f = Fn(self, self.tu.funcs[name])
+        try:
+            f.text = f.translate()
+        except Unsupported as e:
+            raise Unsupported("in %s: %s" % (name, e))
+        self.busy.discard(name)
+        self.fns[name] = f
+        self.order.append(name)
+        return f
+
+    # -- structs
+    def need_record(self, sname):
+        if sname not in self.records:
+            if sname not in self.tu.records:
+                raise Unsupported("struct %s has no complete definition" % sname)
+            self.records.append(sname)
+
+    def fields(self, sname):
+        """[(name, Gallina type or None when the field type is not modelled)]"""
+        out = []
+        for f in kids(self.tu.records[sname]):
+            if f.get("kind") != "FieldDecl":
+                continue
+            if f.get("isBitfield"):
+                out.append((f["name"], None))
+                continue
+            ty = node_type(f)
+            out.append((f["name"], ty.coq() if ty.kind == "int" else "ptr" if ty.kind == "ptr" else None))
+        return out
+
+    def proj(self, sname, field, node):
+        self.need_record(sname)
+        if dict(self.fields(sname)).get(field) is None:
+            bad(node, "field %s.%s has a type that is not modelled" % (sname, field))
+        return "%s_%s" % (sname, field)
+
+    def setter(self, sname, field, node):
+        self.proj(sname, field, node)
+        return "set_%s_%s" % (sname, field)
+
+    def record_text(self, sname):
+        fs = self.fields(sname)
+        keep = [(f, t) for f, t in fs if t]
+        lines = ["(* struct %s%s *)" % (sname, "".join("; field %s not modelled" % f for f, t in fs if not t))]
+        lines.append("Record %s := mk_%s {\n%s\n}." % (
+            sname, sname, ";\n".join("  %s_%s : %s" % (sname, f, t) for f, t in keep)))
+        for f, t in keep:
+            args = " ".join("v'" if g == f else "s'.(%s_%s)" % (sname, g) for g, _ in keep)
+            lines.append("Definition set_%s_%s (s' : %s) (v' : %s) : %s :=\n  mk_%s %s." % (
+                sname, f, sname, t, sname, sname, args))
+        return "\n".join(lines)
+
+    # -- global constants
+    def need_global(self, name, node):
+        if name in self.global_text:
+            return name
+        d = self.tu.globals[name]
+        ty = node_type(d)
+        init = [c for c in kids(d) if "Comment" not in c.get("kind", "")]
+        if not (ty.kind == "struct" and ty.const and init and init[0].get("kind") == "InitListExpr"):
+            bad(node, "global %s is not a const struct with an initialiser" % name)
+        self.need_record(ty.name)
+        f = Fn.__new__(Fn)                      # expression translator without a function
+        f.mod, f.tu, f.env, f.pre, f.flags = self, self.tu, {}, [[]], {"monadic": True}
+        vals = []
+        for (fname, ft), c in zip(self.fields(ty.name), kids(init[0])):
+            if ft is None:
+                continue
+            if c.get("kind") == "ImplicitValueInitExpr":
+                vals.append("Null" if ft == "ptr" else "0")
+            else:
+                vals.append(emb(f.ex(c), "?"))
+        if f.pre != [[]]:
+            bad(node, "initialiser of %s is not a plain constant" % name)
+        self.global_text[name] = "Definition %s : %s :=\n  mk_%s %s." % (name, ty.name, ty.name, " ".join(vals))
+        self.globals_used.append(name)
+        return name
+
+    def global_array(self, base, fn):
+        """(name, element type) when base is a global const integer array"""
+        b = strip_parens(base)
+        while b.get("kind") == "ImplicitCastExpr" and b["castKind"] in ("ArrayToPointerDecay", "NoOp"):
+            b = strip_parens(kids(b)[0])
+        if b.get("kind") != "DeclRefExpr" or b["referencedDecl"]["kind"] != "VarDecl":
+            return None
+        name = b["referencedDecl"]["name"]
+        if name in fn.env or name not in self.tu.globals:
+            return None
+        d = self.tu.globals[name]
+        q = d["type"]["qualType"]
+        if "[" not in q or "const" not in q.split("[")[0].split():
+            bad(base, "global array %s is not const" % name)
+        ety = parse_type(q.split("[")[0])
+        init = [c for c in kids(d) if c.get("kind") == "InitListExpr"]
+        if ety.kind != "int" or not init:
+            bad(base, "global array %s" % name)
+        if name not in self.global_text:
+            vals = []
+            for c in kids(init[0]):
+                c = strip_parens(c)
+                while c.get("kind") == "ImplicitCastExpr":
+                    c = strip_parens(kids(c)[0])
+                if c.get("kind") != "IntegerLiteral":
+                    bad(c, "array initialiser element")
+                v = int(c["value"])
+                vals.append(str(v % (1 << ety.bits)) if not ety.signed else "(%d)" % v)
+            want = int(q.split("[")[1].split("]")[0])
+            if len(vals) != want:
+                bad(base, "array %s: %d initialisers for %d elements" % (name, len(vals), want))
+            rows = [";".join(vals[i:i + 8]) for i in range(0, len(vals), 8)]
+            self.global_text[name] = "Definition %s : list %s := [\n  %s]%s." % (
+                name, ety.coq(), ";\n  ".join(rows), "%Z" if ety.signed else "")
+            self.globals_used.append(name)
+        return name, ety
+
+    def emit(self):
+        for e in self.entries:
+            self.fn(e, {"kind": "entry %s" % e})
+        out = ["(* GENERATED by tools/c2gallina.py from %s - do not edit.\n"
+               "   One Gallina definition per C function, statement by statement; the meaning of the helper\n"
+               "   names (res, bind, u32, sint, ptr, load8, store8 ...) is fixed in GenLib.v.\n"
+               "   Assumptions: `struct T *` / `uintN_t *` parameters are valid and do not alias (they are the\n"
+               "   record / value passed in and returned); every `uint8_t *` of a function points into the one\n"
+               "   byte array mem'; fuel' bounds the iterations of every loop (Fault Out_of_fuel beyond).\n"
+               "   Functions: %s. *)" % (self.src, ", ".join(self.order)),
+               "From Coq Require Import NArith ZArith List Bool.\nFrom JLS Require Import GenLib.\n"
+               "Import ListNotations.\nLocal Open Scope N_scope."]
+        out += [self.record_text(r) for r in self.records]
+        out += [self.global_text[g] for g in self.globals_used]
+        out += [self.fns[f].text for f in self.order]
+        return "\n\n".join(out) + "\n"
+
+
+def main(argv):
+    outdir, only = os.path.join(VERIF, "coq"), None
+    i = 0
+    while i < len(argv):
+        if argv[i] == "--out":
+            outdir = argv[i + 1]
+            i += 2
+        elif argv[i] == "--only":
+            only = argv[i + 1].split(",")
+            i += 2
+        else:
+            sys.stderr.write(__doc__)
+            return 2
+    status = 0
+    for modname, (src, entries) in FILES.items():
+        if only and modname not in only:
+            continue
+        try:
+            text = Module(modname, src, entries).emit()
+        except Unsupported as e:
+            sys.stderr.write("c2gallina: %s (%s): UNSUPPORTED: %s\n" % (modname, src, e))
+            status = 2
+            continue
+        path = os.path.join(outdir, modname + ".v")
+        old = open(path).read() if os.path.exists(path) else None
+        if old != text:
+            with open(path, "w") as f:
+                f.write(text)
+            print("c2gallina: wrote %s (sha %s)" % (path, hashlib.sha1(text.encode()).hexdigest()[:12]))
+        else:
+            print("c2gallina: %s unchanged" % path)
+    return status
+
+
+if __name__ == "__main__":
+    sys.exit(main(sys.argv[1:]))
